@@ -9,8 +9,8 @@ CONSTANTS
   IdOf <- IdOfDef
   Objs = {o1}
   MaxAttempts = 7
-  MaxClock = 80
-  FailBudget = 1
+  MaxClock = 8
+  FailBudget = 0
   RespBudget = 0
   JunkBudget = 0
   CloseConn = TRUE
@@ -18,7 +18,7 @@ CONSTANTS
   AllowClose = FALSE
   IdleCollects = 1
   RtoChanges = 2
-  DeadlineTicks = TRUE
+  DeadlineTicks = FALSE
   OneAtATime = FALSE
   SafePool = FALSE
   Strict = FALSE
